@@ -197,10 +197,10 @@ PROPS["C12"] = dict(
 
 PROPS["C09"] = dict(
     level="other",
-    claim="In each of the 41 index resolve_optype specialisations with a compile-time branch, that branch is defined as the paired run-time function applied to to_value_v of the specialisation's own parameters in parameter order, and every ct<>/clipped<> constant it builds is an unmodified element of that call's result - so the value computed at compile time is the value the run-time code computes, by construction. For shape_squeeze - whose clipped-tuple, fixed-array and run-time-length branches are three separate pieces of code - E1 additionally proves that all of them (std::array, utl::array, bounded static_vector, tuple of clipped integers) return the same, NumPy, result for every pattern of single extents at ranks 1..4. The 15-kind cast matrix (constant / fixed / bounded / dynamic / clipped shape x fixed / bounded / dynamic buffer) is checked by 15 type-level witnesses: the result of cast(a, kind) has exactly the shape knowledge and buffer kind its tag names, element type kept. Branch agreement of the other index functions is decided only as far as the E1 components of C01-C08 instantiate several kinds with one obligation text; STL vs non-STL and compiler independence are not decided.",
+    claim="In each of the 41 index resolve_optype specialisations with a compile-time branch, that branch is defined as the paired run-time function applied to to_value_v of the specialisation's own parameters in parameter order, and every ct<>/clipped<> constant it builds is an unmodified element of that call's result - so the value computed at compile time is the value the run-time code computes, by construction. For shape_squeeze - whose clipped-tuple, fixed-array and run-time-length branches are three separate pieces of code - E1 additionally proves that all of them (std::array, utl::array, bounded static_vector, tuple of clipped integers) return the same, NumPy, result for every pattern of single extents at ranks 1..4. The 15-kind cast matrix (constant / fixed / bounded / dynamic / clipped shape x fixed / bounded / dynamic buffer) is checked by 15 type-level witnesses: the result of cast(a, kind) has exactly the shape knowledge and buffer kind its tag names, element type kept. Container-kind independence of the addressing functions (C01 obligations: std::array, utl::array, tuple, bounded run-time-length static_vector), of broadcast_shape (C06 obligations: std::array, utl::array, tuples incl. constants, mixed), of the run-time rearranging views (C03: fixed vs bounded-dimension arrays) and of isequal (C18: fixed, bounded, heap index arrays) is decided by counting those multi-kind obligations here as well: every kind is proved equal to ONE oracle text, hence the kinds agree with each other. STL vs non-STL builds and compiler independence are not decided.",
     note=E2_NOTE + " " + E1_NOTE,
     technique="static: custom libTooling extractor + by-construction rule on type-level branches (argument order, unmodified result); " + E1_TECH + " for branch agreement of shape_squeeze",
-    e1=[dict(tu="c03d_squeeze.cpp")],
+    e1=[dict(tu="c03d_squeeze.cpp"), dict(tu="c06_broadcast.cpp", count_as="C06"), dict(tu="c01_index.cpp", count_as="C01"), dict(tu="c03b_dynamic.cpp", count_as="C03"), dict(tu="c18_isequal.cpp", count_as="C18")],
     e3=[dict(group="C09")],
     e2=[dict(rule="R-CONSTBRANCH")],
     rule=E1_RULE + "; E2: one instance per resolve_optype<void, index::TAG_t, ...> specialisation that builds constants; distinct by (file, specialisation arguments)",
@@ -255,6 +255,18 @@ PROPS["C05"] = dict(
     assumptions=["operands do not alias", "extent, start, stop, step as listed"],
 )
 
+PROPS["C17"] = dict(
+    level="proof",
+    claim="Partial, one clause only: (E1 c17_pool, index level, exhaustive over small parameters) the output shape of 2-d pooling is the standard formula - floor((H-k)/s)+1, in ceil mode the ceiling with a last window that would start beyond the input dropped (PyTorch's rule), batch and channel extents kept - for every H in 1..7, k in 1..min(H,3), s in 1..3, both modes, on either spatial axis; and the window of output position p is rows / columns [p*s, p*s+k) with the batch / channel position kept, inside the input in floor mode and starting inside it in ceil mode. The ELEMENT laws of pooling, convolution, normalisation, softmax, linear, bilinear, distances are NOT decided: at view level only the shapes fold, the element obligations of max_pool2d, conv1d and linear-with-bias stay residual (run-time slice lists / nested reductions), and the floating-point routines are out of reach.",
+    note=E1_NOTE + " The functions depend on (extent, kernel, stride, mode) only; these are constants, so the float quotient is folded by the compiler. Decided after the repair `fix: pooling in ceil mode drops a last window that would start beyond the input` (F35).",
+    technique=E1_TECH + " (exhaustive enumeration of pooling parameters)",
+    e1=[dict(tu="c17_pool.cpp")],
+    rule=E1_RULE,
+    explanation="shape_pool2d / slice_pool2d are integer functions of four small parameters per axis; each (parameter combination, clause) is one obligation against the formula of the property statement.",
+    not_decided="every element law of C17 (pooling values, conv1d / conv2d, softmax / softmin, the normalisations, linear, bilinear, pairwise_distance, cosine_similarity), convolution output shapes, padding / dilation, extents above 7",
+    assumptions=["kernel not larger than the input", "no padding, no dilation (pool2d has neither parameter)"],
+)
+
 HOOK_COMMITS = []
 PROPS["C16"] = dict(
     level="other",
@@ -269,5 +281,4 @@ PROPS["C16"] = dict(
 )
 
 NOT_APPLICABLE = [
- dict(property_id="C17", reason="floating-point results of long view pipelines with tolerance; nothing structural that is also necessary (DESIGN §3 C17). Tried: the pooling output-shape formula is computed in float (ceil/floor of a float quotient), out of reach of E1; the pad stage (index::pad, view::pad) is integer-only and is proved under C02/C15; the constant-shape device that decides C16 was tried on conv1d (shape (1,CI,L) x (CO,CI,KW)): the output shape discharges, the element law leaves residuals in every instance (the convnd pipeline does not fold), so nothing is claimed"),
 ]
